@@ -45,6 +45,7 @@ REQUIRED_THEOREMS = [
     "bipolar_jacobian_derivation", "bisph_jacobian_derivation",
     # ... and the operators of polar / spherical grids act on the components in the order of get_axis_index
     "operators_use_component_order_polar", "operators_use_component_order_spherical",
+    "operators_use_component_order_spherical_tensor",
 ]
 EXTRA_PROP_FILES = ["C19Jac"]
 RULE = ("legs: coordsys (5 curvilinear coordinate systems + Cartesian 1-3d at random points, batches and "
